@@ -191,3 +191,30 @@ Example c01_window_bound_needed :
 Proof.
   split; [vm_compute; reflexivity|]. intros [rest H]. vm_compute in H. discriminate H.
 Qed.
+
+(* ---- the byte level: the link theorems above speak of frames; the real line carries bytes.  The
+   host's receive loop (AshRx.rx_loop, proved equal to the reference decoder in C02) is the
+   composition of a pure deframer and the frame handler, and a read whose frames all parse is
+   exactly one [Frames] event of the host machine used above (model/AshHostBytes.v, which the C01
+   correspondence runs against the real AshProtocol byte for byte, corrupted frames included). *)
+Require Import BV.model.AshHostBytes BV.proofs.AshHostBytes_proofs.
+
+Theorem c01_receive_loop_is_deframe_then_handle : forall fuel b disc rx acc,
+  rx_loop fuel b disc rx acc =
+    let '(b', d', items) := deframe fuel b disc [] in
+    let '(rx', outs) := handle_items rx items in (b', d', rx', acc ++ outs).
+Proof. exact rx_loop_deframe. Qed.
+
+Theorem c01_read_of_valid_frames_is_frames_event : forall st chunk b' d' fs,
+  deframe (S (List.length (rbuf st ++ chunk))) (rbuf st ++ chunk) (rdisc st) [] = (b', d', map Some fs) ->
+  bstep st (BBytes chunk) =
+    ({| hst := fst (host_step (hst st) (Frames fs)); rbuf := cap b'; rdisc := d' |},
+     snd (host_step (hst st) (Frames fs))).
+Proof. exact read_of_valid_frames. Qed.
+
+(* an unparsable frame (bad CRC, bad escape, bad length) only makes the host write CANCEL + NAK with
+   its expected number; it changes nothing else -- the "detectable corruption" label of the link model *)
+Theorem c01_invalid_frame_only_naks : forall st items,
+  Forall (fun i => i = None) items ->
+  apply_items st items = (st, map (fun _ => HCancelNak (rx_seq st)) items).
+Proof. exact invalid_frames_only_nak. Qed.
